@@ -55,9 +55,8 @@ def run_unit(u, unit_dir, repo_root, scratch, tier):
     cmds = []
     any_fail = False
     any_undecided = None
-    for h in hs:
+    def run_one(h):
         cmd = ['cargo', 'kani', '--harness', h['name']] + h.get('args', [])
-        cmds.append(' '.join(cmd))
         th = time.time()
         try:
             def _lim():
@@ -88,7 +87,19 @@ def run_unit(u, unit_dir, repo_root, scratch, tier):
                  'failed_checks': failed_checks[:10], 'expect': h.get('expect', 'SUCCESSFUL')}
         if r == 'UNDECIDED':
             entry['tail'] = out[-1500:]
+        return ' '.join(cmd), entry
+
+    # build once (first harness alone), then the rest in parallel: they share the compiled crate
+    import concurrent.futures as _cf
+    results_ = []
+    if hs:
+        results_.append(run_one(hs[0]))
+        with _cf.ThreadPoolExecutor(max_workers=int(u.get('jobs', 4))) as ex:
+            results_ += list(ex.map(run_one, hs[1:]))
+    for (cmdstr, entry), h in zip(results_, hs):
+        cmds.append(cmdstr)
         res['harnesses'].append(entry)
+        r = entry['result']
         if h.get('expect') == 'FAILED':
             # negative control: a harness that must fail (vacuity guard)
             if r != 'FAILED':
